@@ -346,3 +346,51 @@ func full(args []string) {
 	os.WriteFile(filepath.Join(*out, "stats.json"), sb, 0o644)
 	fmt.Println(string(sb))
 }
+
+// witness prints small deterministic file values (val tokens) for the non-vacuity / refuted examples of Oblig/C07FullObl.v.
+func witness(args []string) {
+	r := rng.New(0xC07F0115)
+	small := gen.Opts{MaxBatches: 1, MaxEntries: 1}
+	emit := func(name string, f *ach.File) {
+		if f != nil {
+			fmt.Printf("%s %s\n", name, dumpStr(reflect.ValueOf(f)))
+		}
+	}
+	// an ADV file
+	for i := 0; i < 50; i++ {
+		var f *ach.File
+		guard(func() { f = gen.ADVFile(r) })
+		if f != nil && len(f.Batches) == 2 && len(f.Batches[0].GetADVEntries()) == 1 && len(f.Batches[1].GetADVEntries()) == 1 {
+			emit("adv", f)
+			break
+		}
+	}
+	// a file valid only with its header's copy of the options: 10-character origin under BypassOriginValidation
+	for i := 0; i < 50; i++ {
+		var f *ach.File
+		guard(func() { f = gen.FileOfSEC(r, ach.PPD, small) })
+		if f == nil || len(f.Header.FileCreationDate) != 6 || len(f.Batches) != 1 {
+			continue
+		}
+		g := gen.Clone(f)
+		gen.ApplyOpts(f, &ach.ValidateOpts{BypassOriginValidation: true})
+		f.Header.ImmediateOrigin = "1234567890"
+		emit("bypass", f)
+		// the same header value with the options on the header only
+		g.Header.SetValidation(&ach.ValidateOpts{BypassOriginValidation: true})
+		g.Header.ImmediateOrigin = "1234567890"
+		emit("headeronly", g)
+		break
+	}
+	// a CTX batch balanced with an offset: the OFFSET entry's name carries no addenda count
+	for i := 0; i < 400; i++ {
+		var f *ach.File
+		guard(func() {
+			f = gen.FileOfSEC(r, ach.CTX, gen.Opts{MaxBatches: 1, MaxEntries: 1, Offset: true, Addenda: true})
+		})
+		if f != nil && len(f.Batches) == 1 && hasCATXOffsetEntry(f) && !hasCATXZeroAddenda(f) && len(f.Header.FileCreationDate) == 6 {
+			emit("catxoffset", f)
+			break
+		}
+	}
+}
